@@ -422,6 +422,10 @@ pub trait MapValidBasic<T: IsNone>: TrustedLen<Item = T> + Sized {
             }
             bins.titer().map(IsNone::unwrap).collect_trusted_vec1()
         };
+        // with `add_bounds` the outer edges stand for -∞ and +∞: the first bin has no
+        // lower limit and the last bin has no upper limit, so that the extreme values
+        // of the type are binned as well
+        let last_bin = bins.len().saturating_sub(2);
         if right {
             Ok(Box::new(self.map(move |value| {
                 if value.is_none() {
@@ -429,12 +433,15 @@ pub trait MapValidBasic<T: IsNone>: TrustedLen<Item = T> + Sized {
                 } else {
                     let value = value.unwrap();
                     let mut out = None;
-                    for (bound, label) in bins
+                    for (i, (bound, label)) in bins
                         .titer()
                         .tuple_windows::<(T::Inner, T::Inner)>()
                         .zip(labels.titer())
+                        .enumerate()
                     {
-                        if (bound.0 < value) && (value <= bound.1) {
+                        let above = (add_bounds && i == 0) || (bound.0 < value);
+                        let below = (add_bounds && i == last_bin) || (value <= bound.1);
+                        if above && below {
                             out = Some(label.clone());
                             break;
                         }
@@ -449,12 +456,15 @@ pub trait MapValidBasic<T: IsNone>: TrustedLen<Item = T> + Sized {
                 } else {
                     let value = value.unwrap();
                     let mut out = None;
-                    for (bound, label) in bins
+                    for (i, (bound, label)) in bins
                         .titer()
                         .tuple_windows::<(T::Inner, T::Inner)>()
                         .zip(labels.titer())
+                        .enumerate()
                     {
-                        if (bound.0 <= value) && (value < bound.1) {
+                        let above = (add_bounds && i == 0) || (bound.0 <= value);
+                        let below = (add_bounds && i == last_bin) || (value < bound.1);
+                        if above && below {
                             out = Some(label.clone());
                             break;
                         }
